@@ -9,6 +9,7 @@ import (
 	"sort"
 	"strings"
 
+	"github.com/scigolib/hdf5/internal/core"
 	"github.com/scigolib/hdf5/internal/zzverif/dump"
 	"github.com/scigolib/hdf5/internal/zzverif/ev"
 	"github.com/scigolib/hdf5/internal/zzverif/hx"
@@ -23,7 +24,9 @@ import (
 // The library's own readers are consulted too: a returned value must equal what was
 // written, an error is an accepted answer where no vlen reader exists.
 
-var c12Lens = []int{0, 1, 7, 8, 9, 4063, 4064, 4065, 4071, 4072, 4073, 4079, 4080, 4081}
+// byte lengths around the capacity of one 4 KiB collection: 16-byte collection header + 16-byte
+// object header + data (aligned to 8) + room or no room for the 16-byte free-space object
+var c12Lens = []int{0, 1, 7, 8, 9, 4031, 4032, 4033, 4039, 4040, 4041, 4047, 4048, 4049, 4055, 4056, 4057, 4063, 4064, 4065, 4071, 4072, 4073, 4079, 4080, 4081}
 
 type c12DS struct {
 	path  string
@@ -39,6 +42,9 @@ func c12ElemLen(r *ev.Rand, class int, unit int) (n int, tag string) {
 	case 0:
 		return 0, "empty"
 	case 1:
+		if unit == 1 && r.Chance(1, 4) {
+			return r.Range(9, 16), "small" // 32-byte objects: 127 of them leave 16 bytes
+		}
 		return r.Range(1, 24), "small"
 	case 2: // around the capacity of one 4 KiB collection (byte lengths)
 		b := c12Lens[r.Intn(len(c12Lens))]
@@ -83,11 +89,24 @@ func c12Run(c *ev.Ctx) {
 				count = r.Range(1, 20)
 			}
 		}
+		// one file in eight: long runs of empty elements (16-byte objects: 255 of them fill a
+		// collection to its last byte, the last object header ends exactly at the collection end)
+		emptyRun := r.Chance(1, 8)
+		if emptyRun {
+			count = []int{254, 255, 256, 300, 510, 511, 600}[r.Intn(7)]
+			tags["empty-run"] = true
+		}
 		ds := &c12DS{path: fmt.Sprintf("/v%d", d), kind: kind}
 		ds.val.Kind = kind
 		hugeBudget := 2
 		for i := 0; i < count; i++ {
 			w := []int{10, 50, 25, 12, 2, 1}
+			if emptyRun {
+				w = []int{1, 0, 0, 0, 0, 0}
+				if r.Chance(1, 100) {
+					w = []int{0, 1, 0, 0, 0, 0}
+				}
+			}
 			if count > 600 {
 				w = []int{10, 70, 10, 10, 0, 0}
 				if hugeBudget > 0 && r.Chance(1, 500) {
@@ -413,6 +432,46 @@ func c12Run(c *ev.Ctx) {
 	for _, x := range tol.Extents {
 		if x.Kind == "GCOL" {
 			ncol++
+			// the library's own collection reader (used for vlen attributes and compound
+			// members) must list the same objects with the same bytes as the decoder
+			g, gerr := tol.DecodeGlobalHeap(x.Start)
+			if gerr != nil || g == nil {
+				continue
+			}
+			var lib *core.GlobalHeapCollection
+			var lerr error
+			site, msg, pan := ev.Guard(func() { lib, lerr = core.ReadGlobalHeapCollection(f, x.Start, 8) })
+			switch {
+			case pan:
+				if !seen["libgcol-panic"] {
+					seen["libgcol-panic"] = true
+					c.Violation("lib-collection-reader:panic:"+ev.PanicClass(msg)+"@"+site, wit(map[string]any{"collection": x.Start}))
+				}
+			case lerr != nil:
+				if !seen["libgcol-err"] {
+					seen["libgcol-err"] = true
+					c.Violation("lib-collection-reader:error", wit(map[string]any{"collection": x.Start, "err": lerr.Error()}))
+				}
+			default:
+				c.Count("collections_read_by_library_reader", 1)
+				for _, ob := range g.Objects {
+					if ob.Index == 0 {
+						continue
+					}
+					lo, oerr := lib.GetObject(uint32(ob.Index))
+					if oerr != nil || !bytes.Equal(lo.Data, ob.Data) {
+						if !seen["libgcol-obj"] {
+							seen["libgcol-obj"] = true
+							pos := "inside"
+							if ob.Offset+16+((ob.Size+7)&^7) >= x.End {
+								pos = "last-bytes-of-collection"
+							}
+							c.Violation("lib-collection-reader:object-differs:"+pos, wit(map[string]any{"collection": x.Start, "index": ob.Index, "size": ob.Size, "err": fmt.Sprint(oerr)}))
+						}
+						break
+					}
+				}
+			}
 		}
 	}
 	for _, is := range tol.CheckExtents() {
@@ -450,14 +509,14 @@ func c12ErrClass(s string) string {
 var C12 = &ev.Property{
 	ID:    "C12",
 	Level: "exploration",
-	Rule: "each case writes 1-3 variable-length datasets (vlen string and vlen sequences of int32/int64/uint32/uint64/float32/float64; contiguous or chunked; rank 1-2; superblock 0/2/3; writes interleaved between datasets or not) with element lists of 1-12, 50-600, 1000-3000 or 10^4 elements whose byte lengths are drawn from {0, 1-24, the 4063..4081 collection-capacity edge, 200-1500, >64 KiB, >150 KiB}, strings with arbitrary bytes, embedded/trailing NUL and multi-byte UTF-8. After Close and reopen: the library must report a variable-length datatype and the written shape, any value its readers return must equal the written one (an error is accepted); the independent decoder must find class 9 with the written base type, follow every element reference into the global heap and return exactly the written bytes; every issue it raises on a GCOL collection (size field, object size, alignment, free-space object, duplicate index, extent overlap) or on the element reference layout is a violation. " +
+	Rule: "each case writes 1-3 variable-length datasets (vlen string and vlen sequences of int32/int64/uint32/uint64/float32/float64; contiguous or chunked; rank 1-2; superblock 0/2/3; writes interleaved between datasets or not) with element lists of 1-12, 50-600, 1000-3000 or 10^4 elements whose byte lengths are drawn from {0, 1-24, the 4031..4081 collection-capacity edge, 200-1500, >64 KiB, >150 KiB}, strings with arbitrary bytes, embedded/trailing NUL and multi-byte UTF-8. After Close and reopen: the library must report a variable-length datatype and the written shape, any value its readers return must equal the written one (an error is accepted); the independent decoder must find class 9 with the written base type, follow every element reference into the global heap and return exactly the written bytes; every collection is also read with the library's own collection reader, which must list the same objects with the same bytes; one file in eight holds runs of 254-600 empty elements (collections filled to the last byte); every issue the decoder raises on a GCOL collection (size field, object size, alignment, free-space object, duplicate index, extent overlap) or on the element reference layout is a violation. " +
 		"non-trivial: every case; distinct = (superblock, kinds+layouts, length classes, count profile, interleaving).",
 	Assumptions: []string{"the independent decoder (validated on the reference corpus' vlen files against h5dump output) stands in for the format specification"},
 	Cases: func(tier string) int {
 		if tier == "thorough" {
-			return 2000
+			return 8000
 		}
-		return 150
+		return 600
 	},
 	Run:   c12Run,
 	Floor: func(tier string) int64 { return 50 },
